@@ -9,7 +9,9 @@ CFG = dict(
         rule="op sequences (bond / unbond / explicit bond-then-unbond-the-minted-shares pairs / keeper Borrow / Repay / interest accrual "
              "after generated time gaps / consistent TotalValue+cash gifts) on the real stablestake msg server and keeper, one vault per "
              "sequence (3 lenders, one of them passive, 1 borrower) on a branch of genesis; an evaluation is one op; non-trivial = the op "
-             "succeeded; distinct = distinct (op, arguments, result, observed vault state and balances) tuples",
+             "succeeded; distinct = distinct (op, arguments, result, observed vault state and balances) tuples; plus governance parameter updates drafted some ops earlier; "
+             "plus history mode on the real app (driver C07H: leveraged-LP focused histories through FinalizeBlock with the real begin-blocker, interest records and rate model, "
+             "governance of the vault's epoch length; an evaluation is one block)",
         trusted_base=COMMON_TB + ["msg server / keeper driven directly with ctx.WithBlockTime and CacheContext per op (not through FinalizeBlock); "
                                   "no per-block interest records exist in that context, so GetInterest takes its Params.InterestRate branch (modelled); "
                                   "the 'gift' op edits Params.TotalValue and the vault balance together (a harness intervention, not a code path)"],
